@@ -106,8 +106,8 @@ MUTANTS += [
 ]
 MUTANTS += [
     dict(property='C09', name='pairs: value stored under the positional symbol, not the named one', file=BASEF, old="                            index_temp = f(parameters[i][0])", new="                            index_temp = f(str(self._paramList[i]))"),
-    dict(property='C09', name='dict: partial update starts from an empty holder (forgets earlier values)', file=BASEF, old="                if hasattr(self, \"_parameters\"):\n                    param_out = self._parameters", new="                if False:\n                    param_out = self._parameters"),
-    dict(property='C09', name='final unrolling: first binding of a parameter wins', file=BASEF, old="            index = self.get_param_index(key)\n            self._paramValue[index] = val", new="            index = self.get_param_index(key)\n            if self._paramValue[index] == 0:\n                self._paramValue[index] = val"),
+    dict(property='C09', name='dict: partial update starts from an empty holder (forgets earlier values)', file=BASEF, old="                if hasattr(self, \"_parameters\"):\n", new="                if False:\n"),
+    dict(property='C09', name='final unrolling: first binding of a parameter wins', file=BASEF, old="            index = self.get_param_index(key)\n            param_value[index] = val", new="            index = self.get_param_index(key)\n            if param_value[index] == 0:\n                param_value[index] = val"),
     dict(property='C09', name='unknown pair name silently skipped', file=BASEF, old="        if input_str in self._paramDict:\n            return self._paramDict[input_str]\n        else:\n            raise InputError(\"Input parameter: %s does not exist\" % input_str)", new="        if input_str in self._paramDict:\n            return self._paramDict[input_str]\n        else:\n            return self._paramDict[self._paramList[0].ID]"),
     dict(property='C16', name='frozen distribution drawn with a private RandomState', file=BASEF, old="param_out[f(inParam)] = value.rvs(1)[0]", new="param_out[f(inParam)] = value.rvs(1, random_state=np.random.RandomState())[0]"),
 ]
@@ -201,4 +201,9 @@ MUTANTS += [
 ]
 MUTANTS += [
     dict(property='C06', name='_unrollParam (all parameters) skips the last value', file=BLF, old="                for i in range(len(theta)):\n                    self._theta[i] = theta[i]", new="                for i in range(len(theta) - 1):\n                    self._theta[i] = theta[i]"),
+]
+MUTANTS += [
+    dict(property='C09', name='rejected dict: holder updated in place again (F18 undone)', file=BASEF, old="                    param_out = dict(self._parameters)", new="                    param_out = self._parameters"),
+    dict(property='C09', name='values stored before every key is resolved (F19 undone)', file=BASEF, old="        param_value = [0]*len(self._paramList)\n", new="        param_value = [0]*len(self._paramList)\n        self._parameters = param_out\n        self._paramValue = param_value\n"),
+    dict(property='C09', name='random definition recorded before the input is accepted (F20 undone)', file=BASEF, old="                        stochastic_param = parameters\n", new="                        stochastic_param = parameters\n                        self._stochasticParam = parameters\n"),
 ]
